@@ -464,10 +464,10 @@ def run(ctx):
     hyp_run(ctx, 'c20.walk',
             st.tuples(st.booleans(), st.lists(st.integers(0, 11), min_size=5, max_size=60)
                       ).map(list),
-            walk_body(ctx), ctx.pick(300, 6000))
+            walk_body(ctx), ctx.pick(300, 20000), frac=0.2)
     run_dfs(ctx, True, ctx.pick(11, 13))
     run_dfs(ctx, False, ctx.pick(12, 14))
-    validate_real_traces(ctx, ctx.pick(12, 150))
+    validate_real_traces(ctx, ctx.pick(12, 400))
 
 
 def replay(ctx, check, case):
